@@ -1175,6 +1175,11 @@ class Model:
         if intercept_idx != -1:
             common_terms.insert(0, common_terms.pop(intercept_idx))
 
+        # Lower order terms are analysed first, whatever the order they are written in.
+        # A main effect written after an interaction that contains it must still be the one
+        # that absorbs the shared subspace.
+        common_terms.sort(key=lambda term: len(getattr(term, "components", ())))
+
         for term in common_terms:
             if term.kind == "interaction":
                 components[term.name] = {c.name: c.kind for c in term.components}
